@@ -57,21 +57,37 @@ fn fork_exec(out: &mut Out, ex: &[Value]) {
             return;
         }
     };
+    // a `drop` event drops one branch (the other goes on alone; a later re-split borrows both anew);
+    // a dropped branch's pending count is logged as -1
+    macro_rules! pend {
+        ($x:ident) => {
+            $x.as_ref().map(|x| x.pending_frames() as i64).unwrap_or(-1)
+        };
+    }
     macro_rules! run_ops {
-        ($a:ident, $b:ident, $ops:expr) => {
+        ($a0:ident, $b0:ident, $ops:expr) => {
+            let (mut $a0, mut $b0) = (Some($a0), Some($b0));
             for op in $ops {
                 let branch = op["a"]["branch"].as_str().unwrap_or("A");
-                let (r, h, _) = measured(|| catch(|| if branch == "A" { $a.next() } else { $b.next() }));
-                let o = json!({"ok": true, "pendA": $a.pending_frames(), "pendB": $b.pending_frames(), "pulls": pulls.get()});
+                if op["ev"] == "drop" {
+                    let (_, h, _) = measured(|| if branch == "A" { drop($a0.take()) } else { drop($b0.take()) });
+                    let o = json!({"ok": true, "pendA": pend!($a0), "pendB": pend!($b0), "pulls": pulls.get()});
+                    out.ev("drop", op["a"].clone(), r_unit(), o, h);
+                    continue;
+                }
+                let (r, h, _) = measured(|| {
+                    catch(|| if branch == "A" { $a0.as_mut().expect("live branch").next() } else { $b0.as_mut().expect("live branch").next() })
+                });
+                let o = json!({"ok": true, "pendA": pend!($a0), "pendB": pend!($b0), "pulls": pulls.get()});
                 out.ev("next", op["a"].clone(), match r { Some(f) => r_val(json!(f)), None => r_panic() }, o, h);
             }
         };
     }
     if variant == "rc" {
-        let (mut a, mut b) = fork.by_rc();
+        let (a, b) = fork.by_rc();
         let o = json!({"ok": true, "pendA": a.pending_frames(), "pendB": b.pending_frames(), "pulls": pulls.get()});
         out.line(&json!({"ev":"reset","comp":"fork","cfg":cfg,"r":r_unit(),"o":o}));
-        let ops: Vec<&Value> = ex[1..].iter().filter(|e| e["ev"] == "next").collect();
+        let ops: Vec<&Value> = ex[1..].iter().filter(|e| e["ev"] == "next" || e["ev"] == "drop").collect();
         run_ops!(a, b, ops);
         return;
     }
@@ -87,16 +103,16 @@ fn fork_exec(out: &mut Out, ex: &[Value]) {
         }
         if to_rc {
             let (split, hs, _) = measured(|| fork.by_rc());
-            let (mut a, mut b) = split;
+            let (a, b) = split;
             let o = json!({"ok": true, "pendA": a.pending_frames(), "pendB": b.pending_frames(), "pulls": pulls.get()});
             out.ev("resplit", json!({"to":"rc"}), r_unit(), o, hs);
-            let ops: Vec<&Value> = ex[i..].iter().filter(|e| e["ev"] == "next").collect();
+            let ops: Vec<&Value> = ex[i..].iter().filter(|e| e["ev"] == "next" || e["ev"] == "drop").collect();
             run_ops!(a, b, ops);
             return;
         }
         {
             let (split, hs, _) = measured(|| fork.by_ref());
-            let (mut a, mut b) = split;
+            let (a, b) = split;
             let o = json!({"ok": true, "pendA": a.pending_frames(), "pendB": b.pending_frames(), "pulls": pulls.get()});
             if first {
                 out.line(&json!({"ev":"reset","comp":"fork","cfg":cfg,"r":r_unit(),"o":o}));
@@ -229,20 +245,37 @@ fn gen(seed: u64, size: &str, path: &str) {
         let cap = if h % 3 == 0 { rng.range(1, 3) } else { rng.range(1, 16) } as i64;
         let start = rng.below(cap as u64);
         let variant = if h % 2 == 0 { "ref" } else { "rc" };
-        let mut ex = vec![json!({"ev":"reset","comp":"fork","cfg":{"cap":cap,"start":start,"variant":variant}})];
         let n = if thorough { 3000 } else { 600 };
+        // every third source is finite and ends somewhere inside the schedule (equilibrium from then on)
+        let srclen: i64 = if h % 3 == 1 { rng.range(0, n as i64 / 2) } else { -1 };
+        let mut ex = vec![json!({"ev":"reset","comp":"fork","cfg":{"cap":cap,"start":start,"variant":variant,"srclen":srclen}})];
         let (mut pa, mut pb) = (0i64, 0i64);
         let mut bias = 50;
+        // a branch may be dropped while it leads, lags or is level; the survivor goes on alone
+        // (by reference: until the next re-split brings both back; by Rc: for good)
+        let (mut live_a, mut live_b, mut rc) = (true, true, variant == "rc");
         for _ in 0..n {
             if rng.chance(1, 40) { bias = *rng.pick(&[10, 50, 90, 0, 100]); }
-            if variant == "ref" && rng.chance(1, 50) {
-                ex.push(json!({"ev":"resplit","a":{"to": if rng.chance(1, 6) {"rc"} else {"ref"}}}));
+            if !rc && rng.chance(1, 50) {
+                let to_rc = rng.chance(1, 6);
+                ex.push(json!({"ev":"resplit","a":{"to": if to_rc {"rc"} else {"ref"}}}));
+                rc = to_rc;
+                live_a = true;
+                live_b = true;
+                continue;
+            }
+            if live_a && live_b && rng.chance(1, if rc { 300 } else { 80 }) {
+                let da = rng.chance(1, 2);
+                ex.push(json!({"ev":"drop","a":{"branch": if da {"A"} else {"B"}}}));
+                if da { live_a = false } else { live_b = false }
                 continue;
             }
             let mut a = (rng.below(100) as i64) < bias;
+            if !live_a { a = false; }
+            if !live_b { a = true; }
             let wild = h % 4 == 3 && ex.len() > n / 2;
-            if !wild && a && pa + 1 - pb > cap { a = false; }
-            if !wild && !a && pb + 1 - pa > cap { a = true; }
+            if !wild && a && pa + 1 - pb > cap { if live_b { a = false } else { continue } }
+            if !wild && !a && pb + 1 - pa > cap { if live_a { a = true } else { continue } }
             if a { pa += 1 } else { pb += 1 }
             ex.push(json!({"ev":"next","a":{"branch": if a {"A"} else {"B"}}}));
         }
